@@ -40,7 +40,7 @@ SIG = {"g0": 0, "g2": 1, "g5": 0, "g8": 0, "g10": 3, "n1": 0, "n2": 0, "n5": 0, 
 
 
 def bound(tier):
-    return ("chrom filter: all tile sequences of length <=3 over 10 tile types; match: all 4-tile genomes over {g0,g5,g10,n2} + fixed 2nd chromosome x all 1-2 locus placement sets; schedules: all completion orders of 3 chromosomes"
+    return ("chrom filter: all tile sequences of length <=3 over 10 tile types; match: all 4-tile genomes over {g0,g5,g10,n2} + fixed 2nd chromosome x all 1-2 locus placement sets, all 5-tile genomes x singles and same/adjacent-tile pairs; schedules: all completion orders of 3 chromosomes"
             if tier == "quick" else
             "chrom filter: all tile sequences of length <=4 over 10 tile types; match: all 5-tile genomes over {g0,g5,g10,n2} and 4-tile genomes over 6 types x all 1-2 (3 on a subset) locus placement sets x bin widths x N thresholds x bigwig variants; schedules: all completion orders of 3 chromosomes, real n_jobs 1..4 threading + loky subset")
 
@@ -56,6 +56,13 @@ def shards(tier, seed):
     for first in pal:
         for second in pal:
             out.append(dict(name="match/%s-%s" % (first, second), kind="match", pal=pal, K=K, first=[first, second], weight=4 ** K * 20))
+    if tier == "quick":
+        # 5-tile genomes with a reduced locus-set family (singles, two loci in the same tile, loci in adjacent tiles):
+        # the smallest genomes in which a bin can spill to both an upper and a lower neighbour bin
+        for first in pal:
+            for second in pal:
+                out.append(dict(name="match5/%s-%s" % (first, second), kind="match", pal=pal, K=5, first=[first, second], reduced=True,
+                                weight=4 ** 5 * 20))
     if tier != "quick":
         pal6 = ["g0", "g2", "g5", "g8", "n1", "q5"]
         for first in pal6:
@@ -274,6 +281,8 @@ def run_match(rec, sh, tier, seed):
             fa, bw, seqs, sigs = write_genome(d, chroms, "m")
             pl = placements("cA", K, len(tail))
             lsets = [(p,) for p in pl] + list(itertools.combinations(pl, 2))
+            if sh.get("reduced"):
+                lsets = [(p,) for p in pl] + [(a, b) for a, b in itertools.combinations(pl, 2) if abs(a[1] // W - b[1] // W) <= 1 and a[1] // W >= 1]
             if tier != "quick" and gi % 7 == 0:
                 lsets += list(itertools.combinations(pl[::2], 3))
             lsets.append((("cB", 3, 8), pl[0]))
@@ -286,7 +295,7 @@ def run_match(rec, sh, tier, seed):
                 for k in ks:
                     width, mnp, use_bw, ow, beta = cfgs[k]
                     loci = pandas.DataFrame(list(lset), columns=["chrom", "start", "end"])
-                    for rs in (0, 1 + seed):
+                    for rs in ((seed,) if sh.get("reduced") else (0, 1 + seed)):
                         case = dict(fn="extract_matching_loci", tiles=tiles, tail=tail, loci=[list(x) for x in lset], gc_bin_width=width, max_n_perc=mnp,
                                     bigwig=use_bw, out_window=ow, signal_beta=beta, random_state=rs)
                         kw = dict(in_window=W, out_window=ow, max_n_perc=mnp, gc_bin_width=width, bigwig=bw if use_bw else None,
@@ -304,7 +313,7 @@ def run_match(rec, sh, tier, seed):
                         rec.case(1, int(bool(n)))
                         if n:
                             n_ret += n
-                        if n is not None and rs == 0:
+                        if n is not None and rs == 0 and not sh.get("reduced"):
                             st2, df2 = call(extract_matching_loci, loci, fa, **kw)
                             if st2 != "ok" or not df.equals(df2):
                                 rec.violation("match:not_deterministic", case)
